@@ -9,7 +9,7 @@
    when invoked (register/remove handlers), so re-entrancy is covered unless a theorem says otherwise.
    Satisfiability Examples for the hypotheses are at the end of Lemmas.v, names starting with ex_. *)
 From Common Require Import Prelude.
-From C03 Require Import Model Lemmas.
+From C03 Require Import Model Lemmas Hold.
 Open Scope Z_scope.
 
 (* After ANY history the logical state is the logical value of the last report (NC inversion applied to raw
@@ -65,21 +65,75 @@ Theorem removed_never_fires :
 Proof. exact removed_never_fires_l. Qed.
 Print Assumptions removed_never_fires.
 
-(* timed_iff_held — full statement (NOT proved as one theorem): in every history in which wake-ups run at their
-   deadlines, a handler (cb,v,ms>0) registered before a change to v at t0 is invoked exactly once, at t0+ms, iff
-   no change and no removal happens before t0+ms; a handler registered at t in (t0, ...) while the switch is in v
-   is invoked at t0+ms iff t0+ms > t, never otherwise.
-   Proved parts (the three places where deadlines are created or dropped):
-     _change : a real change at [now] enters every timed handler registered for the new state in the deadline
-               table at now+ms (callbacks may register more meanwhile);
-     _catchup: registration while the switch is in the state enters the handler at the ORIGINAL deadline
-               last_change+ms iff that is still ahead, otherwise leaves the timers alone (fix 1); registration
-               for the other state never touches the timers;
-     _cancel : a real change drops the whole deadline table of the previous state;
-   together with single_wakeup_never_crashes (the one wake-up is the recorded one) and removed_never_fires.
-   Missing: the lemma that a wake-up at time t invokes exactly the entries with deadline <= t and re-arms at the
-   minimum remaining deadline, and the induction composing these over histories.  That part is validated on
-   every run by the correspondence (3000 timelines, wake-up times compared) and by the oracle. *)
+(* timed_iff_held — the property's second sentence, ONE theorem over all histories (Hold.v).
+
+   The hold automaton of a handler x = (cb, v, ms), ms > 0 ([hold_step], Hold.v) is the sentence written as a program:
+   it keeps the switch state, the time of the last real change, the mute sources, n = number of live
+   registrations of x and p = number of pending holds of x, and
+     - a duplicate report changes nothing;  a real change sets p := n when it is INTO v on an unmuted switch (one
+       hold per registration, all due at change + ms) and p := 0 otherwise (left the state / muted: never fires);
+     - registering x while the switch is in v adds a hold at the ORIGINAL deadline iff that is still ahead
+       (t < last_change + ms), otherwise none;  removing x sets n := 0 and p := 0 (a removed handler never fires);
+     - a wake-up at time t fires all p pending copies, at t, iff last_change + ms <= t, and then p := 0
+       (exactly once per registration); before the deadline it fires nothing.
+   [timed_iff_held]: for EVERY history (reports raw/logical on NO/NC, duplicates, registrations, removals, mutes,
+   queries, wake-ups, window timers, in any order and at any times), every reachable starting state and every
+   callback scripts that register/remove anything except x itself, the times at which the model invokes x are exactly
+   the output of the automaton.  Together with
+     [reachable_invariants]   every pending entry sits under the key last_change + ms and is for the current state,
+                              keys are unique, and (W) the loop holds exactly the recorded wake-up,
+     [wakeup_at_minimum_deadline]  which exists iff something is pending and is due at the MINIMUM pending deadline
+                              (so after every wake-up the loop is re-armed at the minimum remaining deadline),
+     [wakeup_fires_at_deadline]    a wake-up that runs at its recorded deadline t invokes only entries with
+                              last_change + ms = t,
+     [wakeup_invokes_exactly_the_due] the wake-up lemma for x: a wake-up at [now] invokes x exactly p times iff
+                              last_change + ms <= now, leaves p otherwise, and touches neither n nor last_change,
+   a handler fires exactly once per registration, at change + ms, iff the switch stayed in the state and the
+   handler stayed registered throughout.  (That the loop runs a wake-up AT its deadline unless it is late is the
+   definition of [advance] (now := max deadline clock) and is what the correspondence runs compare; when the loop is
+   late the handler fires at the first wake-up after the deadline, if the switch has not changed by then.) *)
+Theorem reachable_invariants :
+  forall A evs s, Inv s ->
+    let s' := fst (exec A s evs) in
+    Inv s' /\ forall k e, In e (tbl_get (get_tbl s') k) -> k = lc s' + us (snd e) /\ snd (fst e) = sst s'.
+Proof. exact exec_Inv_keyed. Qed.
+Print Assumptions reachable_invariants.
+
+Theorem initial_state_invariants : forall nc st h lc0 win a b, Inv (init_state nc st h lc0 win a b).
+Proof. exact init_Inv. Qed.
+Print Assumptions initial_state_invariants.
+
+Theorem wakeup_at_minimum_deadline :
+  forall s, Inv s ->
+    match get_tbl s with
+    | [] => wakes (tm s) = [] /\ cur (tm s) = None
+    | kl :: d => exists w, wakes (tm s) = [(w, tbl_min (kl :: d))] /\ cur (tm s) = Some (w, tbl_min (kl :: d))
+    end.
+Proof. exact Inv_wake. Qed.
+Print Assumptions wakeup_at_minimum_deadline.
+
+Theorem wakeup_fires_at_deadline :
+  forall A s w t, Inv s -> earliest (wakes (tm s)) = Some (w, t) ->
+    forall t' c st m, In (Fire t' c st m) (snd (process A t s w)) -> t' = t /\ t = lc s + us m.
+Proof. exact wake_fires_at_deadline_l. Qed.
+Print Assumptions wakeup_fires_at_deadline.
+
+Theorem wakeup_invokes_exactly_the_due :
+  forall A cb v ms, acts_nox A cb v ms -> forall now s w tw, Inv s -> earliest (wakes (tm s)) = Some (w, tw) ->
+    let r := process A now s w in
+    nreg cb v ms (fst r) = nreg cb v ms s /\ lc (fst r) = lc s /\
+    pend cb v ms (fst r) = (if kx ms s <=? now then 0%nat else pend cb v ms s) /\
+    xfires cb v ms (snd r) = (if kx ms s <=? now then repeat now (pend cb v ms s) else []).
+Proof. exact process_x. Qed.
+Print Assumptions wakeup_invokes_exactly_the_due.
+
+Theorem timed_iff_held :
+  forall A cb v ms, 0 < ms -> acts_nox A cb v ms -> forall evs s, Inv s ->
+    xfires cb v ms (snd (exec A s evs)) = hold_run cb v ms (inv s) (abs cb v ms s) evs.
+Proof. exact timed_iff_held_l. Qed.
+Print Assumptions timed_iff_held.
+
+(* the per-step facts proved earlier (kept): where deadlines are created and dropped *)
 Theorem timed_iff_held_partial_change :
   forall A now s lg val, adds_only A -> logical_of (inv s) lg val <> sst s -> mutes (dv s) = [] ->
     let v := logical_of (inv s) lg val in
